@@ -66,6 +66,7 @@ type accWalker struct {
 	out      *[]string
 	deferred []string
 	stack    map[string]bool
+	top      bool // the entry point itself (not an inlined callee): a return ends the thread's program
 }
 
 func (w *accWalker) emit(t string) { *w.out = append(*w.out, t) }
@@ -174,6 +175,24 @@ func (w *accWalker) walk(n ast.Node) {
 		case *ast.IncDecStmt:
 			if !w.writeTarget(x.X) {
 				w.walk(x.X)
+			}
+			return false
+		case *ast.FuncLit:
+			// a closure runs on behalf of its caller; its returns are not returns of the entry point
+			sub := &accWalker{g: w.g, recv: w.recv, typ: w.typ, out: w.out, stack: w.stack}
+			sub.walk(x.Body)
+			for _, d := range sub.deferred {
+				w.emit(d)
+			}
+			return false
+		case *ast.ReturnStmt:
+			for _, r := range x.Results {
+				w.walk(r)
+			}
+			if w.top && len(w.deferred) == 0 {
+				// an explicit return of the entry point with no deferred Unlock pending: the mutex must
+				// not be held here (control flow is flattened, so this is recorded as a checkpoint)
+				w.emit("RET")
 			}
 			return false
 		case *ast.DeferStmt:
@@ -292,7 +311,7 @@ func genAccess(outDir string) {
 		fd := g.funcs[key]
 		var out []string
 		name, typ := recvOf(fd)
-		wk := &accWalker{g: g, recv: name, typ: typ, out: &out, stack: map[string]bool{key: true}}
+		wk := &accWalker{g: g, recv: name, typ: typ, out: &out, stack: map[string]bool{key: true}, top: true}
 		wk.walk(fd.Body)
 		out = append(out, wk.deferred...)
 		sep := ","
@@ -306,6 +325,8 @@ func genAccess(outDir string) {
 				acts = append(acts, ".lock")
 			case t == "U":
 				acts = append(acts, ".unlock")
+			case t == "RET":
+				acts = append(acts, ".ret")
 			case strings.HasPrefix(t, "R:"):
 				acts = append(acts, ".read "+leanStr(t[2:]))
 			default:
